@@ -127,10 +127,20 @@ def map_history(seed, k, nops):
             n = instance_number.value if isinstance(instance_number, InstanceNumber) else instance_number
             return self._own.get((s, n), None)
 
-    m = ViaGetType() if k % 3 == 2 else DeviceInstanceTypeMapper()
     shorts = [rng.randrange(64) for _ in range(3)]
     inums = [rng.randrange(32) for _ in range(3)]
     evs = []
+    shared = None
+    if k % 3 == 1:
+        # the map starts from a table the application keeps (and has handed to another mapper object as well): what
+        # happens to that other object is not this one's business
+        shared = {(rng.choice(shorts), rng.choice(inums)): rng.choice([1, 3, 4, 2]) for _ in range(rng.randrange(1, 4))}
+        m = DeviceInstanceTypeMapper(shared)
+        sibling = DeviceInstanceTypeMapper(shared)
+        for (s_, n_), t_ in sorted(shared.items()):
+            evs.append({"op": "add", "s": s_, "n": n_, "t": t_, "form": "int"})
+    else:
+        m = ViaGetType() if k % 3 == 2 else DeviceInstanceTypeMapper()
     ambs = []
     kept = []
     for _ in range(nops):
@@ -146,6 +156,8 @@ def map_history(seed, k, nops):
                        instance_number=InstanceNumber(n) if form == "obj" else n,
                        instance_type=mods[t] if form == "module" else t)
             evs.append({"op": "add", "s": s, "n": n, "t": t, "form": form})
+        elif op == "clear" and shared is not None and rng.random() < 0.6:
+            sibling.clear()             # the other mapper forgets everything: no event for the model
         elif op == "clear":
             m.clear()
             evs.append({"op": "clear"})
